@@ -67,7 +67,7 @@ struct Stats {
   uint64_t sample_every = 997;
   std::string out_path, fail_path, last_path;
   int last_fd = -1;
-  uint64_t flush_every = 2000;
+  uint64_t flush_every = 2000; long last_flush_s = 0;
 
   Stats() {
     const char *o = getenv("VERIF_OUT");  if (o) out_path = o;
@@ -82,7 +82,8 @@ struct Stats {
       if (nontrivial.size() < nontrivial_cap) nontrivial.insert(fnv1a(text)); else nontrivial_capped = true;
       if (samples.size() < max_samples && (samples.empty() || evaluations % sample_every == 0)) samples.push_back(text.size() > 4000 ? text.substr(0, 4000) + "...[cut]" : text);
     }
-    if (evaluations % flush_every == 0) flush();
+    // flush by count for cheap cases and by wall time for expensive ones (a worker stopped at the wall-clock cap must have reported what it did)
+    { struct timespec ts; clock_gettime(CLOCK_MONOTONIC, &ts); if (evaluations % flush_every == 0 || ts.tv_sec - last_flush_s >= 5) { last_flush_s = ts.tv_sec; flush(); } }
   }
   // CPU-time watchdog per case (ITIMER_VIRTUAL counts this process's user time only, so machine load cannot trip it).
   static void on_hang(int) { static const char m[] = "\nERROR: VERIF-HANG: case exceeded its CPU-time budget\n"; if (write(2, m, sizeof m - 1) < 0) {} _exit(94); }
